@@ -272,6 +272,23 @@ func (x *exec) relations(step, ei, d, c int) {
 		if len(sel.IDs) >= 2 {
 			x.res.Stats.Probes["flat_order_checked_2plus"]++
 		}
+		// "yields ITS nodes": against the reference model of the fragment
+		var bind map[string]string
+		if x.s.Cfg.NS {
+			bind = nsMap
+		}
+		if want, ok, _ := flatDenotation(es.AST, x.docs[d%len(x.docs)], c, bind); ok {
+			x.res.Stats.Probes["flat_denotation_checked"]++
+			if len(want) >= 2 {
+				x.res.Stats.Probes["flat_denotation_checked_2plus"]++
+			}
+			if fmt.Sprint(want) != fmt.Sprint(sel.IDs) {
+				x.viol("order", "order:not-its-nodes", fmt.Sprintf("flat path %s from doc %d ctx %d yields %v; the path denotes %v", text, d, c, sel.IDs, want), step)
+				return
+			}
+		} else if es.AST != nil {
+			x.res.Stats.Probes["flat_denotation_declined"]++
+		}
 	}
 	// Evaluate returns an iterator producing the same sequence as Select
 	ev := x.solo(text, d, c, "eval", 0)
